@@ -3,16 +3,15 @@
      (T) exists fuel b r o, ewd fuel g D opt = Done (b, r, o)                       [the call terminates]
      (E) forall fuel b r o, ewd fuel g D opt = Done (b, r, o) -> (b = true <-> winnable (Vg g) (mult g) (nthZ D))
    for opt in {false, true}; both modes agree.
-   Proved here: (E) for plain mode unconditionally; (E) for optimized mode and mode agreement given that the
-   reduction of D terminates for some fuel (the deg >= g shortcut needs the existence of a q-reduced representative).
-   (T) is the termination theorem C01_terminates below (Link/Termination.v) when present. *)
+   Proved here in full: C01_exact below is exactly this statement (termination by the weighted-potential argument of Link/Termination.v).
+   The intermediate statements (plain mode for every well-formed multigraph, optimized mode given termination) are kept as well. *)
 From Coq Require Import ZArith List Bool.
 Import ListNotations.
-From CF Require Import ListAux Defs Core EwdLink DharLink.
+From CF Require Import ListAux Defs Core EwdLink DharLink RankLink Termination.
 Open Scope Z_scope.
 
 Definition C01_full_statement : Prop :=
-  forall g D opt, wfb g = true -> connected_b g = true -> length D = nv g ->
+  forall g D opt, wfb g = true -> connected_b g = true -> (0 < nv g)%nat -> length D = nv g ->
     (exists fuel b r o, ewd fuel g D opt = Done (b, r, o)) /\
     (forall fuel b r o, ewd fuel g D opt = Done (b, r, o) -> (b = true <-> winnable (Vg g) (mult g) (nthZ D))).
 
@@ -36,6 +35,25 @@ Print Assumptions C01_modes_agree.
 Theorem C01_shortcut_negative_degree : forall g, wfb g = true -> forall D, degD g D < 0 -> ~ winnable (Vg g) (mult g) (nthZ D).
 Proof. exact shortcut_neg. Qed.
 Print Assumptions C01_shortcut_negative_degree.
+
+(* the call terminates: on every connected multigraph the reduction returns for some fuel (hence for every larger fuel, by monotonicity) *)
+Theorem C01_terminates : forall g, wfb g = true -> connected_b g = true -> forall q D, In q (Vg g) -> length D = nv g ->
+  exists fuel x, ewd_q fuel g q D = Done x.
+Proof. exact ewd_q_terminates. Qed.
+Print Assumptions C01_terminates.
+(* the full statement *)
+Theorem C01_exact : forall g D opt, wfb g = true -> connected_b g = true -> (0 < nv g)%nat -> length D = nv g ->
+    (exists fuel b r o, ewd fuel g D opt = Done (b, r, o)) /\
+    (forall fuel b r o, ewd fuel g D opt = Done (b, r, o) -> (b = true <-> winnable (Vg g) (mult g) (nthZ D))).
+Proof. intros g D opt Hwf Hc Hn HL.
+  assert (HT : exists fuel0 x, ewd_q fuel0 g (argmin D) D = Done x) by (apply ewd_q_terminates; auto; now apply argmin_in).
+  split.
+  - destruct HT as [fuel [[[b R] B] H]]. exists fuel. unfold ewd. destruct (opt && (degD g D <? 0)); [eauto|]. destruct (opt && (genus_g g <=? degD g D)); [eauto|]. rewrite H. eauto.
+  - intros fuel b r o H. destruct opt; [eapply ewd_opt_exact; eauto|eapply ewd_plain_exact; eauto]. Qed.
+Print Assumptions C01_exact.
+Theorem C01_full_statement_holds : C01_full_statement.
+Proof. exact C01_exact. Qed.
+Print Assumptions C01_full_statement_holds.
 
 (* regression statement for the repaired defect d1: a single borrowing pass does not clear the debt off q *)
 Definition P3 : graph := [[0;1;0];[1;0;1];[0;1;0]].
